@@ -1,6 +1,6 @@
 //! C12 — structural predicates decide exactly their mathematical definitions.
 
-use super::c17::{draw_order, draw_order_tail, run_top};
+use super::c17::{draw_giant, draw_order, draw_order_tail, run_top};
 use super::draw_sched;
 use crate::core::{Lane, Scenario, Stats, Tier, Violation};
 use crate::exec::Conf;
@@ -15,7 +15,7 @@ use serde::{Deserialize, Serialize};
 use std::collections::BTreeSet;
 use vmodel::dg::{Dg, WDg};
 use vmodel::gen::{
-    draw_cpu, draw_density, near_semicomplete, random_dg, random_tournament, random_vertex_set, tournament_with_paired_defects,
+    draw_cpu, draw_density, near_semicomplete, random_dg, random_tournament, random_vertex_set, tournament_with_paired_defects, tournament_with_row_defects,
 };
 use vmodel::rng::Rng;
 
@@ -292,6 +292,32 @@ macro_rules! check_preds {
     }};
 }
 
+/// A dense digraph of order `n` at the tournament boundary whose defects (if any) all lie in one row.
+fn st_row(rng: &mut Rng, n: usize) -> Dg {
+    let r = match rng.below(6) {
+        0 => 0,
+        1 => n - 1,
+        2 | 3 => (n - 1) / 2,
+        4 => n / 2,
+        _ => rng.below(n),
+    };
+    match rng.below(6) {
+        0 => random_tournament(rng, n),
+        1 => {
+            // semicomplete, not a tournament: one doubled pair in row r
+            let mut g = random_tournament(rng, n);
+            let v = (r + 1 + rng.below(n - 1)) % n;
+            let _ = g.a.insert((r, v));
+            let _ = g.a.insert((v, r));
+            g
+        }
+        _ => {
+            let above = rng.chance(1, 2);
+            tournament_with_row_defects(rng, n, r, above)
+        }
+    }
+}
+
 impl Lane for C12 {
     const ID: &'static str = "C12";
     type Body = Body;
@@ -302,7 +328,10 @@ impl Lane for C12 {
             Tier::Thorough => 48,
         };
         let max = if rng.chance(1, 5) { max } else { max.min(16) };
-        let n = if rng.chance(1, 250) {
+        let dense_giant = rng.chance(1, 300);
+        let n = if dense_giant {
+            draw_giant(rng, 769)
+        } else if rng.chance(1, 250) {
             // rows of the bit matrix spanning nine and more words
             *rng.pick(&[577, 578, 640, 641, 704, 705, 1000, 1024, 1088])
         } else if rng.chance(1, 40) {
@@ -313,7 +342,10 @@ impl Lane for C12 {
         } else {
             draw_order(rng, max)
         };
-        let mut d = if n > 300 {
+        let mut d = if dense_giant {
+            // giant *and* dense, around the tournament / semicomplete boundary: every defect in one row
+            st_row(rng, n)
+        } else if n > 300 {
             // giants stay sparse and structured (the model's predicates are quadratic in the arc count)
             let mut g = match rng.below(5) {
                 0 => Dg::circuit(n),
@@ -350,7 +382,7 @@ impl Lane for C12 {
         } else {
             draw_near_miss(rng, n)
         };
-        if rng.chance(1, 3) {
+        if rng.chance(1, 3) && !dense_giant {
             let ids = random_vertex_set(rng, n, 3 * max);
             d = relabel(&d, &ids);
         }
@@ -365,6 +397,10 @@ impl Lane for C12 {
         ];
         while confs.len() < nconf {
             confs.push(Conf { cpu: draw_cpu(rng, n), sched: draw_sched(rng, n), trace: None });
+        }
+        if dense_giant {
+            // one flag load per vertex pair: keep the giants to two scheduled executions
+            confs.truncate(2);
         }
         Scenario { body: Body { h, d }, confs }
     }
